@@ -19,7 +19,7 @@ Rec == ndJsonDeserialize(IOEnv.TRACE)
 
 VARIABLES l, h, root, cfg, hist, handles, drift, rej
 tvars == <<l, h, root, cfg, hist, handles, drift, rej>>
-Props == {"C01", "C05", "C06", "C07", "REF", "TAP", "C17"}
+Props == {"C01", "C05", "C06", "C07", "REF", "TAP", "C17", "C10", "C13"}
 NoRej == [p \in Props |-> 0]
 NoCfg == [react |-> [unsub_at |-> 0, emit_at |-> 0, sub_at |-> 0], sbj |-> <<>>, conn |-> <<>>]
 R == Rec[l]
